@@ -134,10 +134,15 @@ CHECKS = {
              'positions on every run; Dict / MatchMapping / Compare / arguments by a rank-order specification; the '
              'syntax_ordered_children table entries against ORDER; the two copies of the `all` node filter '
              '(_check_all_param for stepping, _all_param_func for walk) agree with each other and with the documented '
-             'rule at every point of their finite domain (every AST class x argument emptiness x kind of all). The '
-             'position-merging functions of Call / ClassDef and the walk generator are bounded: exhaustive over every '
-             'argument-like sequence CPython accepts up to length 4 (thorough 5), plus walk modes, chains, step_*, '
-             'paths on the corpus (thorough: standard library). Known finding F-C14-1 (Module.type_ignores).',
+             'rule at every point of their finite domain (every AST class x argument emptiness x kind of all); the '
+             'position-merging step functions of Call and ClassDef (positional / starred elements interleaved with '
+             'keywords by source position, 20 functions with linear-search loops) return the neighbour in syntactic '
+             'order for ALL list lengths and positions - the loops are summarised exactly by a search-loop rule whose '
+             'side conditions are checked on the real loop body, under stated well-formedness assumptions (lists sorted '
+             'by position, distinct positions, non-starred positionals precede keywords). The walk generator is '
+             'bounded (one iteration of its enter loop is proved under C15): walk modes, chains, step_*, paths on the '
+             'corpus and on every argument-like sequence CPython accepts up to length 4 (thorough 5; thorough also '
+             'standard library). Known finding F-C14-1 (Module.type_ignores).',
         note=TB + 'ORDER table is trusted only as far as its per-run validation against CPython on the corpus goes. '
              + BND,
         technique='contract-based deductive verification of generated code (symbolic lists, z3) against a '
